@@ -138,7 +138,7 @@ impl TransformerContext {
 
 //@item src/context.rs :: impl TransformerContext :: fn set_var
 //@ replace[R-into] <<<scope.vars.insert(name.into(), value.into());>>> => <<<scope.vars.insert(name.to_string(), value.to_string());>>>
-//@ before <<<let scope = self.ensure_scope();>>>
+//@ body-start
 //@ | proof { self.vars_set = Ghost(self.vars_set@.push((name@, value@))); }
 //@ ensures
 //@ - scope_frame(*old(self), *final(self))    @@C15.set_var.frame
